@@ -207,11 +207,46 @@ def w_grid(idx):
     return evs
 
 
+# EML-named parents whose children stand in an order OTHER than the one their rule lists (legal in repeatable choices, and what
+# an exporter has to write anyway: "child order" is the order of the tree)
+EML_ORDERS = [("coverage", ["temporalCoverage", "geographicCoverage", "taxonomicCoverage", "geographicCoverage"]), ("abstract", ["section", "para", "section", "markdown", "para"]),
+              ("dataset", ["creator", "title", "contact", "title", "abstract", "pubDate", "creator"]), ("creator", ["positionName", "organizationName", "individualName", "address", "phone", "address"]),
+              ("eml", ["additionalMetadata", "dataset", "access"]), ("para", ["emphasis", "ulink", "subscript", "emphasis"]), ("access", ["deny", "allow", "deny"]),
+              ("methods", ["qualityControl", "sampling", "methodStep", "sampling"]), ("attribute", ["measurementScale", "attributeDefinition", "attributeName", "storageType"])]
+
+
+def w_eml_orders(idx):
+    from metapype.eml import export
+    from metapype.model import metapype_io
+    evs = []
+    for i in idx:
+        parent, kids = EML_ORDERS[i]
+        for eml in (True, False):
+            Node.store.clear()
+            root = Node(parent)
+            for k, nm in enumerate(kids):
+                c = Node(nm, content=None if nm in ("section", "creator", "address", "dataset", "access", "additionalMetadata", "allow", "deny") else "t%d" % k)
+                if c.content is None:
+                    c.add_child(Node("title" if nm in ("section", "dataset") else "zzLeaf", content="x"))
+                root.add_child(c)
+            t = xmlobs.tree_proj(root)
+            desc = {"exporter": "export.to_xml" if eml else "metapype_io.to_xml", "eml_order": [parent, kids]}
+            try:
+                text = export.to_xml(root) if eml else metapype_io.to_xml(root)
+            except Exception as e:  # noqa: BLE001
+                evs.append({"op": "failed", "raised": type(e).__name__, "desc": desc})
+                continue
+            raw = wellformed_twice(text)
+            evs.append({"op": "export_eml" if eml else "export", "wf": raw is not None, "raw": xmlobs.raw_split(raw) if raw else 0, "tree": t, "desc": desc})
+    return evs
+
+
 def run(rep, tier, seed):
     n = 600 if tier == "quick" else 20000
     evs = [e for chunk in parallel(w_general, [seed * 4256233 + i for i in range(n)]) for e in chunk]
     evs += [e for chunk in parallel(w_eml, [seed * 86028121 + i for i in range(n)]) for e in chunk]
     evs += [e for chunk in parallel(w_grid, range(len(GRID_NAMES) * len(SPECIALS))) for e in chunk]
+    evs += [e for chunk in parallel(w_eml_orders, range(len(EML_ORDERS))) for e in chunk]
     judged = [e for e in evs if e["op"] != "failed"]
     for e in evs:
         if e["op"] == "failed":
